@@ -18,7 +18,7 @@
        so an enclosing EndAtomic cuts to the wrong depth (C15_nested_conditional_refuted: the
        witness of known finding F-condleak, replayed on the real crate by the check). *)
 From FR Require Import Base State Utf8 Utf8Facts Chars Ast Analyze Sem SemSound Vm Compile
-                       Machine CompileCorrect RunCorrect EndToEnd.
+                       Machine Param ArrowA CompileCorrect RunCorrect EndToEnd.
 From Coq Require Import NArith Lia.
 
 Theorem C15_reference_conditional : forall cx c y n fuel g st,
@@ -50,6 +50,24 @@ Theorem C15_conditional_follows_reference :
   | _ => True
   end.
 Proof. exact vm_agrees_with_reference. Qed.
+
+
+(* the same for EVERY compiled program (branches and conditions that are handed to the automata
+   engine included): stage 3 of the end-to-end theorem, see Properties/C01.v *)
+Theorem C15_conditional_follows_reference_all :
+  forall cs : list (list nat), valid_chars cs ->
+  forall cx : ctx, c_text cx = concat cs -> (N.of_nat (length (concat cs)) < usize_max)%N ->
+  bnd cs (c_pos cx) ->
+  forall (bs : N -> bool) (e : expr) (p : prog),
+  compile bs (wrap e) = inr p -> oke true 0 (wrap e) -> refs_ok True (refd bs) (wrap e) ->
+  forall (max_st : nat) (lim : option N) (fuelv : nat),
+  match fst (vm_run cx p max_st lim fuelv) with
+  | RMatch sv => search_list cx e (S (length (c_text cx))) = Some (firstn (2 * S (ngroups e)) sv)
+  | RNoMatch => search_list cx e (S (length (c_text cx))) = None
+  | RPanic => False
+  | _ => True
+  end.
+Proof. exact vm_agrees_with_reference_all. Qed.
 
 (* what [oke true] says about conditionals *)
 Example rok_allows : rok true (Repeat (Conditional (BackrefExistsCondition 1) Empty Empty) 0 usize_max true) /\
@@ -98,4 +116,5 @@ Proof. eexists. eexists. split; [reflexivity|]. split; [vm_compute; reflexivity|
 
 Print Assumptions C15_reference_conditional.
 Print Assumptions C15_conditional_follows_reference.
+Print Assumptions C15_conditional_follows_reference_all.
 Print Assumptions C15_nested_conditional_refuted.
